@@ -197,27 +197,28 @@ theorem bin_eq_filter' (ts vs : List α) (hts : ts.Pairwise (· ≤ ·)) (hvs : 
   | nil =>
     have : i = 0 := by simpa using hi
     subst this
-    simp [bins, inBin]
+    have hall : vs.filter (inBin ([] : List α) 0) = vs := by
+      rw [List.filter_eq_self]
+      intro v _
+      simp [inBin]
+    simp [bins, hall]
   | cons t ts ih =>
     have hts' := List.Pairwise.of_cons hts
     simp only [bins]
     rw [splitLt_eq_filter t vs hvs]
     cases i with
     | zero =>
+      have : vs.filter (inBin (t :: ts) 0) = vs.filter (fun v => decide (v < t)) :=
+        List.filter_congr (fun v _ => inBin_cons_zero t ts v)
+      rw [this]
       simp only [List.getElem?_cons_zero]
-      congr 1
-      apply List.filter_congr
-      intro v _
-      rw [inBin_cons_zero]
     | succ j =>
       have hj : j ≤ ts.length := by simpa using hi
       simp only [List.getElem?_cons_succ]
-      rw [ih hts' (vs.filter fun v => decide (t ≤ v)) (hvs.sublist List.filter_sublist) j hj]
-      congr 1
-      rw [List.filter_filter]
-      apply List.filter_congr
-      intro v _
-      rw [inBin_cons_succ t ts hts j hj v, Bool.and_comm]
+      rw [ih (vs.filter fun v => decide (t ≤ v)) hts' (hvs.sublist List.filter_sublist) j hj]
+      have : vs.filter (inBin (t :: ts) (j + 1)) = vs.filter (fun v => inBin ts j v && decide (t ≤ v)) :=
+        List.filter_congr (fun v _ => by rw [inBin_cons_succ t ts hts j hj v, Bool.and_comm])
+      rw [this, List.filter_filter]
 
 /-! ### histogram: bin lookup -/
 
